@@ -818,6 +818,42 @@ class FnRun:
                 elif len(cands) == 1 and is_int(dty):
                     sret, _ = self.an.summary(cands[0])
                     ret = sret
+        if "indirect" not in f and f.get("name") == "then_some" and ((f.get("resolved") or f).get("path", "") or "").startswith("core::bool::") and len(t["args"]) == 2:
+            # `flag.then_some(v)`: the payload of Some is v in the state refined by what a true flag implies
+            a0 = t["args"][0].get("move") or t["args"][0].get("copy")
+            st2 = dict(st)
+            if a0 is not None and not a0["p"]:
+                fk = (a0["l"], ())
+                if ("rel", fk) in st2:
+                    self.refine_by_rel(st2, fk, True)
+                if ("cond", fk) in st2:
+                    self.refine_by_cond(st2, fk, True)
+            def chase(key, rng):
+                # the value was copied before the flag was tested: what the flag implies for the place it was copied
+                # from holds for the copy as well
+                k_, hops = key, 0
+                while ("alias", k_) in st2 and hops < 6:
+                    k_ = st2[("alias", k_)]
+                    r_ = st2.get(k_)
+                    if r_ is not None:
+                        rng = meet(rng, r_) if rng is not None else r_
+                        if rng is None:
+                            return None
+                    hops += 1
+                return rng
+            v1 = self.operand(st2, t["args"][1])
+            pre_ = (("down", "Some"), ("f", 0))
+            a1 = t["args"][1].get("move") or t["args"][1].get("copy")
+            if v1 is not None:
+                k1 = self.operand_key(st2, t["args"][1]) if a1 is not None else None
+                extra[pre_] = chase(k1, v1) if k1 is not None else v1
+            elif a1 is not None:
+                sl_, sp_ = self.norm(st2, a1["l"], [pe(e) for e in a1["p"]])
+                for kk, vv in list(st2.items()):
+                    if isinstance(kk[0], int) and kk[0] == sl_ and kk[1][:len(sp_)] == tuple(sp_) and len(kk[1]) > len(sp_):
+                        r2_ = chase(kk, vv)
+                        if r2_ is not None:
+                            extra[pre_ + kk[1][len(sp_):]] = r2_
         if "indirect" not in f and f.get("name") == "map" and "core::array::" in ((f.get("resolved") or f).get("path", "") or "") and len(t["args"]) == 2:
             extra.update(self.array_map_model(st, t, dty))
         if "indirect" not in f and cond is None and dty == "bool" and f.get("name") == "contains" and len(t["args"]) == 2:
@@ -832,6 +868,11 @@ class FnRun:
             st[(ndl, tuple(ndp))] = clamp(ret, rng)
         for sub, v in extra.items():
             st[(ndl, tuple(ndp) + sub)] = v
+        if "indirect" not in f and f.get("name") == "from_residual" and isinstance(dty, dict) and dty.get("adt") in ("core::option::Option", "core::result::Result"):
+            # `x?` on the failing side: the function's result is None / Err(..), never a success payload
+            st[("variant", (ndl, tuple(ndp)))] = frozenset(["None" if dty["adt"].endswith("Option") else "Err"])
+        if "indirect" not in f and f.get("name") == "then_some" and isinstance(dty, dict) and dty.get("adt") == "core::option::Option" and extra:
+            pass
         if "indirect" not in f and cond is not None and dty == "bool":
             st[("cond", (ndl, tuple(ndp)))] = cond
 
